@@ -205,7 +205,8 @@ pub fn pick_args(rng: &mut Rng, af: &AAFramework<usize>, max_len: usize) -> Vec<
     if live.is_empty() {
         return vec![];
     }
-    let k = if max_len <= 1 { 1 } else { [1, 2, 2, 3][rng.below(4)].min(max_len) };
+    // mostly 1-3 listed arguments; one list in eight is LONG (4-8 arguments, repetitions likely)
+    let k = if max_len <= 1 { 1 } else if max_len >= 4 && rng.chance(1, 8) { rng.range(4, max_len) } else { [1, 2, 2, 3][rng.below(4)].min(max_len) };
     let comps = components(af);
     let mut v: Vec<usize> = Vec::new();
     match rng.below(6) {
